@@ -182,14 +182,16 @@ reg("C13", "c13",
 reg("C10", "c10",
     "TLA+ spec Snapshot.tla (operation semantics transcribed operator by operator) enumerated by TLC; one implementation test per "
     "transition through three paths; long random sequences folded by TLC",
-    "TLC enumerates every sequence create.s (|s| <= 3 over 33 call instances covering every operation kind, valid / unknown / "
-    "non-comment edit targets, forced and filtered label changes with duplicates and absent removals, metadata collisions, no-op) "
+    "TLC enumerates every sequence create.s (|s| <= 3 over 47 call instances covering every operation kind with and without "
+    "attached files, valid / unknown / non-comment edit targets, forced and filtered label changes over three labels with "
+    "duplicates and absent removals, metadata collisions, no-op; quick tier: all of length <= 2 and a seeded quarter of length 3) "
     "and checks the property's clauses as theorems (sorted duplicate-free labels, one comment per create/add-comment with the text "
-    "of its latest edit, duplicate-free actors/participants, one timeline entry per state-changing operation, incremental = from "
+    "and files of its latest edit, duplicate-free actors/participants, one timeline entry per state-changing operation, incremental = from "
     "scratch). Every state is replayed through bug.Compile in memory (twice), through commit + bug.Read + Compile, and through the "
     "cache's incrementally maintained snapshot, and the fully projected snapshot (title, status, labels, comments, actors, "
     "participants, timeline with edit history, per-operation metadata) must equal the specification's. Random sequences of 20-300 "
-    "calls executed on the code are folded by TLC with the same operators.",
+    "calls executed on the code are validated by TLC one specification step per call (a projection of the compiled state is "
+    "logged after every call, the complete state at the end).",
     "Texts and labels are abstracted to integers; unicode fidelity belongs to C04. TLC, the harness projection code trusted.",
     "DESIGN.md section 4, C10")
 
@@ -263,16 +265,20 @@ reg("C11", "c11",
 reg("C06", "c06",
     "TLA+ spec Crash.tla model-checked by TLC; fault enumeration of every crash point of every write path in dying child "
     "processes; records validated by TLC",
-    "Crash.tla states what a write path must look like (all objects before the single ref update; clock files only replaced "
-    "atomically) and what must be found after a crash at point k (old or new state decided by the ref update alone, repository "
-    "opens, every entity readable and valid, clocks usable and not behind any stored time, repeating the call completes it). TLC "
-    "checks every path of the commit / merge grammar x every crash point, and a witness run shows that in-place clock writes are "
-    "reported unsafe. The harness runs nine scenarios (new bug with one / several authors, edit, new and mutated identity, pull of "
-    "a new bug, fast-forward pull, pull with merge commit, plain read) once to record the real mutation sequence (git objects and "
-    "refs through a decorator of repository.ClockedRepo, clock-file operations through the verif local-storage hook) and then once "
-    "per crash point in a child process that exits at that mutation (after an O_TRUNC open took effect; in the middle of a "
-    "write); the parent re-opens with clock loaders, reads everything, repeats the call if needed, and TLC accepts the records "
-    "only if all of the above holds at every point.",
+    "Crash.tla states what a write path must look like (every object followed by the ref update that publishes it, one ref "
+    "mutation per entity, clock files only replaced atomically) and what must be found after a crash at point k, entity by entity "
+    "(old or new state decided by the mutations of that entity's ref alone, repository opens, every entity readable and valid, "
+    "clocks usable and not behind any stored time, repeating the call completes it). TLC checks every path of the commit / merge / "
+    "pull / remove grammar (one or two entities per call) x every crash point; two witness runs show that in-place clock writes and "
+    "a ref update after every pack are reported unsafe. The harness runs a catalogue of calls (new bug with one / several authors, "
+    "edit, new and mutated identity, pulls that create / fast-forward / merge, one pull moving six entities, removal of a bug and of "
+    "an identity, plain read) and generated ones (commits with up to three authors, identities with several versions, pulls of "
+    "random mixtures) once to record the real mutation sequence (git objects and refs through a decorator of "
+    "repository.ClockedRepo, clock-file operations through the verif local-storage hook) and then once per crash point in a child "
+    "process that exits at that mutation (after an O_TRUNC open took effect; in the middle of a write - thorough: every prefix "
+    "length); the dying child's own trail must match the reference run; the parent re-opens with clock loaders, reads everything, "
+    "repeats the call if needed (thorough: interrupts the repeated call too), and TLC accepts the records only if all of the above "
+    "holds at every point.",
     "go-git's object / ref writes and fetch are trusted atomic. 113+ crash points; identity and bug paths; entity API level.",
     "DESIGN.md section 4, C06")
 
